@@ -42,6 +42,7 @@ package bitmap
 //@   ensures[C07:hint-honoured] (inrange4(a, hint.IP) && !old(bits(a.bitmap))[off4(a, hint.IP)]) ==> (err == nil && u32be(n.IP) == v4of(hint.IP))
 
 //@ func (*IPv4Allocator).Free
+//@   refines allocators.Allocator
 //@   requires wf4(a) && !held(a.l)
 //@   modifies bits(a.bitmap), held(a.l)
 //@   ensures wf4(a) && !held(a.l)
@@ -157,6 +158,7 @@ package bitmap
 //@ pure func pbase(p net.IPNet) bv128 = u128(p.IP) & u128(p.Mask)
 
 //@ func (*Allocator).Free
+//@   refines allocators.Allocator
 //@   requires wf6(a) && !held(a.l)
 //@   requires len(prefix.IP) == 16 && len(prefix.Mask) == 16
 //@   modifies bits(a.bitmap), held(a.l)
